@@ -20,11 +20,25 @@ func (e *Engine) execInstr(st *State, fr *Frame, in ssa.Instruction) {
 		}
 		if obj := x.Object(); obj != nil {
 			if _, isVar := obj.(*types.Var); isVar {
-				fr.names[obj.Name()] = x.X
-				fr.nameAddr[obj.Name()] = x.IsAddr
+				ref := x
+				if _, isConst := x.X.(*ssa.Const); isConst && x.Expr != nil && x.Expr.Pos() == obj.Pos() {
+					// go/ssa records the defining occurrence of "v := <composite literal / make>" with
+					// the zero value; the variable's real value is what its later references show
+					for _, b := range fr.fn.Blocks {
+						for _, in := range b.Instrs {
+							if dr, ok := in.(*ssa.DebugRef); ok && dr != x && dr.Object() == obj {
+								if _, c := dr.X.(*ssa.Const); !c && ref == x {
+									ref = dr
+								}
+							}
+						}
+					}
+				}
+				fr.names[obj.Name()] = ref.X
+				fr.nameAddr[obj.Name()] = ref.IsAddr
 				// a reference to a variable that lives in a cell is a load of that cell: bind the
 				// name to the cell so that contract expressions see its current value
-				if ld, ok := x.X.(*ssa.UnOp); ok && !x.IsAddr && ld.Op == token.MUL {
+				if ld, ok := ref.X.(*ssa.UnOp); ok && !ref.IsAddr && ld.Op == token.MUL {
 					switch ld.X.(type) {
 					case *ssa.Alloc, *ssa.FreeVar, *ssa.Global:
 						fr.names[obj.Name()] = ld.X
